@@ -1292,7 +1292,11 @@ func (x *Env) observe(ts *taskState, oi int, op *Op, recv int, recvIsE int) {
 	// global state: "the package keeps no mutable global state" is C16's
 	// statement only; the other properties do not forbid (say) a cache
 	if name, ok := x.G.CheckDeep(); !ok && x.R.Prop == "C16" && !noMGlob {
-		x.fail(ts, oi, op, "M-glob", name, fmt.Sprintf("%s changed after initialisation", stateName(name)))
+		msg := fmt.Sprintf("%s changed after initialisation", stateName(name))
+		if strings.Contains(name, "(sync.Once") {
+			msg = stateName(name)
+		}
+		x.fail(ts, oi, op, "M-glob", name, msg)
 		return
 	}
 	ts.digest = append(ts.digest, dg)
@@ -2054,7 +2058,7 @@ var _ = errors.New
 // stateName words a registered variable: a package-level variable, or a local
 // variable that a closure built during package initialisation keeps alive.
 func stateName(n string) string {
-	if strings.Contains(n, "(local variable captured") {
+	if strings.Contains(n, "(local variable captured") || strings.Contains(n, "(sync.Once") {
 		return "package state " + n
 	}
 	return "package-level variable " + n
